@@ -3,9 +3,10 @@ from vlib.core import *
 def run(tier):
     c = Check("C35", tier)
     q = tier == "quick"
-    f = [os.path.join(VERIF, "harness/rpc/zz_verif_c35.go")]
-    params = {"K": 2, "words": 1, "splits": 2} if q else {"K": 3, "words": 2, "splits": 3}
+    f = [os.path.join(VERIF, "harness/rpc/zz_verif_c35.go"), os.path.join(VERIF, "harness/rpc/zz_verif_c35c.go")]
+    params = {"K": 2, "words": 1, "splits": 2, "csplits": 1, "CK": 2, "wbuf": 7, "rbuf": 6, "maxread": 5, "chunk": 5, "n0max": 3} if q else {"K": 3, "words": 2, "splits": 3, "csplits": 2, "CK": 2, "wbuf": 9, "rbuf": 9, "maxread": 9, "chunk": 7, "n0max": 4}
     c.run_pkg(REPO, "./pkg/rpc", os.path.join(REPO, "pkg/rpc"), "rpc", f, "^VerifC35", params=params, max_models=8 if q else 30, wall="120s" if q else "1800s", soft_trunc="record")
     c.assumptions += ["REDUCED SCOPE: unencrypted framing (protocol version 0) of PacketConn over a harness net.Conn whose Read may return short at up to `splits` arbitrary places (every placement of the cuts), connection state right after the handshake (sequence numbers 0); the nonce/handshake exchange, AES-CBC and corruption under encryption are outside",
+                      "encrypted layer (VerifC35Crypto): cryptoWriter/cryptoReader with encryption switched on in mid-stream as the handshake does, AES-CBC replaced by a stub cipher.BlockMode of block size 4 (bijective, position dependent, panics on partial blocks); writer buffer sizes {2,7,9}<=wbuf, reader buffer sizes {1,4,6,9}<=rbuf, Read sizes alternating between two arbitrary members of {1,3,4,5,8,9}<=maxread, chunk sizes {0,1,4,5,7}<=chunk, plaintext prefix {0,1,3,4}, every flush placement, every segmentation with <= splits short reads",
                       "hash/crc32 on symbolic bytes is an uninterpreted function: corruption inside checksummed data is decided only up to the CRC contract (stated), corruption of length / sequence fields by the explicit checks"]
-    return c.finish(bounds=params, outside=["encrypted connections and the handshake", "concurrent readers/writers", "ping/pong built-in packets", "more than K packets"])
+    return c.finish(bounds=params, outside=["the nonce/handshake packet exchange and real AES (the encrypted byte layer is decided with a stub cipher)", "concurrent readers/writers", "ping/pong built-in packets", "more than K packets"])
